@@ -81,6 +81,10 @@ func (g *G) feat(f string) { g.Feat[f]++ }
 
 // ---------------------------------------------------------------- prelude
 
+// PosSrc is a bool-valued helper that is always loaded next to deep: conditions built from calls
+// and from indexing leave their operands on the operand stack instead of in the temp register.
+const PosSrc = "pos = (n) -> n > 0"
+
 // Prelude definitions (documented combinators from the Readme plus helpers).
 var PreludeSrc = []string{
 	"deep = (n) -> if n <= 0 0 else 1 + deep(n - 1)",
@@ -257,6 +261,26 @@ func (g *G) IntExpr(s *scope, d int) string {
 
 // BoolExpr generates a bool-valued expression.
 func (g *G) BoolExpr(s *scope, d int) string {
+	if d > 0 && g.T.Draw(6) == 0 {
+		// && / || whose operands are call results, indexed values or contain calls: whichever side
+		// decides, both operands have been evaluated and both must leave the stack
+		op := []string{"&&", "||"}[g.T.Draw(2)]
+		operand := func() string {
+			switch g.T.Draw(4) {
+			case 0:
+				return "pos(" + g.IntExpr(s, 1) + ")"
+			case 1:
+				return "[true, false, true][" + fmt.Sprint(g.T.Draw(3)) + "]"
+			case 2:
+				return g.atom(s) + " < deep(" + fmt.Sprint(g.T.Draw(4)) + ")"
+			default:
+				return []string{"true", "false"}[g.T.Draw(2)]
+			}
+		}
+		g.feat("expr.bool_op_on_stack_operands")
+		g.NeedDeep = true
+		return operand() + " " + op + " " + operand()
+	}
 	switch g.T.Draw(6) {
 	case 0, 1, 2:
 		op := []string{"<", "<=", "==", "!=", ">", ">="}[g.T.Draw(6)]
@@ -498,6 +522,11 @@ func (g *G) stmt(s *scope, inLoop bool) []string {
 		s.funs = append(s.funs, h)
 		return []string{h + " = (x) -> " + body}
 	case 10: // yield (generators) or early return (functions, inside conditionals only)
+		if s.top && !s.inGen && g.T.Draw(2) == 0 {
+			// a yield with no loop waiting for it (main context): it only evaluates to its operand
+			g.feat("stmt.naked_yield_at_top_level")
+			return []string{"yield " + g.IntExpr(s, 1)}
+		}
 		if s.inGen {
 			g.feat("stmt.yield")
 			e := g.IntExpr(s, 1)
@@ -555,7 +584,7 @@ func (g *G) forStmt(s *scope, _ bool) []string {
 	}
 	nb := 1 + g.T.Draw(2)
 	body = append(body, g.Stmts(c, nb, false)...)
-	if s.inGen && g.T.Draw(3) == 0 {
+	if (s.inGen && g.T.Draw(3) == 0) || (s.top && !s.inGen && g.T.Draw(5) == 0) {
 		g.feat("for.yield_in_body")
 		body = append(body, "yield "+vars[0]+" + "+g.lit())
 	}
@@ -634,7 +663,7 @@ func (g *G) DefPure() Def {
 	s := g.newScope(ps, false)
 	var src string
 	var feats []string
-	switch t := g.T.Draw(9); {
+	switch t := g.T.Draw(10); {
 	case t == 1 && ar >= 1: // bounded recursion
 		feats = append(feats, "def.recursive")
 		src = fmt.Sprintf("%s = (%s) -> if %s <= 0 {\n%s\n} else {\n%s + %s(%s - 1%s)\n}", name, strings.Join(ps, ", "), ps[0], g.lit(), g.atom(s), name, ps[0], restArgs(ps))
@@ -674,6 +703,25 @@ func (g *G) DefPure() Def {
 			body = "s = s * 10 + h(e)"
 		}
 		lines = append(lines, "for e <- t() {\n"+body+"\n}", "s")
+		src = name + " = (" + strings.Join(ps, ", ") + ") -> " + block(lines)
+	case t == 9: // many iterator contexts alive at once in one function: a wide zip and nested zips
+		feats = append(feats, "def.many_iterators")
+		g.feat("def.many_iterators")
+		k := []int{4, 8, 9, 10, 17}[g.T.Draw(5)]
+		vars := make([]string, k)
+		its := make([]string, k)
+		terms := make([]string, k)
+		for i := 0; i < k; i++ {
+			vars[i] = "w" + letters(i)
+			its[i] = fmt.Sprintf("fromto(%d, %d)", i, i+3)
+			terms[i] = fmt.Sprintf("%s * %d", vars[i], i+1)
+		}
+		s.used["s"] = true
+		lines := []string{"s = 0", "for " + strings.Join(vars, ", ") + " <- " + strings.Join(its, ", ") + " {\ns = s + " + strings.Join(terms, " + ") + "\n}"}
+		if g.T.Bool() { // and nested: 3 x 3 x 3 iterators inside one another
+			lines = append(lines, "for a, b, c <- fromto(0, 2), fromto(1, 3), fromto(2, 4) {\nfor d, e, f <- fromto(0, 2), fromto(3, 5), fromto(5, 7) {\nfor h, i, j <- fromto(0, 2), fromto(7, 9), fromto(9, 11) {\ns = s + a + b * 2 + c * 3 + d * 5 + e * 7 + f * 11 + h * 13 + i * 17 + j * 19\n}\n}\n}")
+		}
+		lines = append(lines, "s")
 		src = name + " = (" + strings.Join(ps, ", ") + ") -> " + block(lines)
 	case t == 8 && ar >= 1: // a burst of operand pushes inside the frame, then assignments, a call and a forked loop that read them
 		feats = append(feats, "def.push_burst")
